@@ -34,7 +34,7 @@ import nfc.handover
 import nfc.handover.client
 import nfc.handover.server
 
-from sim.fakesock import ScriptSocket, PairLink, WouldBlockForever
+from sim.fakesock import ScriptSocket, PairLink, WouldBlockForever, World, WorldLLC
 from sim import llcpair
 
 logging.disable(logging.CRITICAL)
@@ -380,11 +380,15 @@ def real_server(kind, sock, max_acc, answers):
     return st, srv.app.log
 
 
+SERVICES = ['urn:nfc:sn:snep', 'urn:nfc:xsn:nv.test:c06']      # the default SNEP server and a second service
+
+
 class FsSnepSrv(SnepSrv):
     """the same callbacks on a real SnepServer bound to a real LLC"""
 
-    def __init__(self, llc, max_acc, answers, recv_miu, recv_buf):
-        nfc.snep.SnepServer.__init__(self, llc, max_acceptable_length=max_acc, recv_miu=recv_miu, recv_buf=recv_buf)
+    def __init__(self, llc, max_acc, answers, recv_miu, recv_buf, service_name='urn:nfc:sn:snep'):
+        nfc.snep.SnepServer.__init__(self, llc, service_name=service_name, max_acceptable_length=max_acc,
+                                     recv_miu=recv_miu, recv_buf=recv_buf)
         self.daemon = True
         self.app = Answers(answers)
 
@@ -394,6 +398,123 @@ class FsHoSrv(HoSrv):
         nfc.handover.HandoverServer.__init__(self, llc, recv_miu=recv_miu, recv_buf=recv_buf)
         self.daemon = True
         self.app = Answers(answers)
+
+
+def history_api(segments):
+    """the calls made on the SnepClient object: r = request, c<k> = connect(SERVICES[k]), x = close()"""
+    out = []
+    for seg in segments:
+        if seg[0] == 'oneshot':
+            out.append('r')
+        else:
+            out += ['c%d' % seg[1]] + ['r'] * len(seg[2]) + ['x']
+    return out
+
+
+def history_expect(segments):
+    """property text: every message arrives exactly once at the server its session is connected to"""
+    logs, results = [[], []], []
+    for seg in segments:
+        for op, rsp in ([(seg[1], seg[2])] if seg[0] == 'oneshot' else seg[2]):
+            k = 0 if seg[0] == 'oneshot' else seg[1]
+            logs[k].append(('put:' if op[0] == 'put' else 'get:') + H(op[1]))
+            results.append('true' if op[0] == 'put' else 'octets:' + H(rsp))
+    return logs, results
+
+
+def history_answers(segments):
+    ans = [[], []]
+    for seg in segments:
+        for op, rsp in ([(seg[1], seg[2])] if seg[0] == 'oneshot' else seg[2]):
+            ans[0 if seg[0] == 'oneshot' else seg[1]].append(('p', 0x81) if op[0] == 'put' else ('gm', rsp))
+    return ans
+
+
+def drive_client(client, segments, acc=0x100000):
+    """perform the history on one real SnepClient object"""
+    results = []
+    client.acceptable_length = acc
+
+    def one(op):
+        try:
+            if op[0] == 'put':
+                r = client.put_octets(op[1], timeout=8.0)
+                results.append({True: 'true', False: 'false'}.get(r, repr(r)))
+            else:
+                r = client.get_octets(op[1], timeout=8.0)
+                results.append('none' if r is None else 'octets:' + H(bytes(r)))
+        except nfc.snep.SnepError as e:
+            results.append('sneperror:%d' % e.errno)
+        except nfc.llcp.Error as e:
+            results.append('llcperror:%d' % e.errno)
+    for seg in segments:
+        if seg[0] == 'oneshot':
+            one(seg[1])
+        else:
+            try:
+                client.connect(SERVICES[seg[1]])
+            except nfc.llcp.Error as e:
+                results.append('connect-llcperror:%d' % e.errno)
+                continue
+            for op, _ in seg[2]:
+                one(op)
+            client.close()
+    return results
+
+
+def history_coupled_run(segments, mius):
+    """real SnepClient object + two real SnepServer loops (one per service) on the World simulator"""
+    w = World()
+    ans = history_answers(segments)
+    srvs = [SnepSrv(0x100000, ans[0]), SnepSrv(0x100000, ans[1])]
+    for k in (0, 1):
+        w.register(SERVICES[k], srvs[k]._serve, mius[k][0], mius[k][1])
+    box = {}
+    orig = nfc.snep.client.send_request
+
+    def logged_send_request(socket, request, send_miu):
+        w.actions.append(('request',))
+        return orig(socket, request, send_miu)
+
+    def client_fn():
+        box['results'] = drive_client(nfc.snep.SnepClient(WorldLLC(w)), segments)
+
+    nfc.snep.client.send_request = logged_send_request
+    try:
+        err = w.run(client_fn)
+    finally:
+        nfc.snep.client.send_request = orig
+    acts = []
+    for a in w.actions:
+        acts.append('R' if a[0] == 'request' else 'X' if a[0] == 'close' else
+                    ('C%d' % SERVICES.index(a[1]) if a[1] in SERVICES else 'C?') if a[0] == 'connect' else 'refused')
+    return {'results': box.get('results', ['!' + repr(err.get('c'))]), 'logs': [list(x.app.log) for x in srvs],
+            'actions': ','.join(acts) or '.', 'world': w, 'err': err}
+
+
+def history_fullstack_run(segments, cfg):
+    """the same history through two real LLCs, two real SnepServer threads on the serving side"""
+    link = llcpair.Link({'miu': cfg['miu_i'], 'agf': cfg['agf']}, {'miu': cfg['miu_t'], 'agf': cfg['agf']})
+    srv_llc = link.llc[cfg['srv_side']]
+    cl_llc = link.llc['i' if cfg['srv_side'] == 't' else 't']
+    ans = history_answers(segments)
+    srvs = [FsSnepSrv(srv_llc, 0x100000, ans[k], cfg['srv_miu'], cfg['srv_rw'], SERVICES[k]) for k in (0, 1)]
+    for x in srvs:
+        x.start()
+    link.start()
+    info = {}
+
+    def client():
+        info['results'] = drive_client(nfc.snep.SnepClient(cl_llc), segments)
+        info['logs'] = [list(x.app.log) for x in srvs]
+        return info['results']
+    try:
+        results = llcpair.with_limit(client)
+    finally:
+        closed = link.close()
+    if link.pipe.stuck or not closed:
+        raise llcpair.Inconclusive('link did not shut down')
+    return {'results': results, 'logs': info['logs'], 'frames': len(link.pipe.frames)}
 
 
 def fullstack_run(kind, ops, cfg, max_acc, answers):
@@ -599,13 +720,22 @@ def main():
                       'when the peer does not answer (virtual time)',
                       'connection setup / release (connect, accept, close) and the server listen threads are outside '
                       'the model (C05/C17/C09)']
-    ck.coq(gen=['SnepK'], targets=['Proofs/SnepChunks.vo', 'Proofs/SnepSched.vo', 'Proofs/Snep.vo', 'Proofs/SnepHo.vo',
+    ck.coq(gen=['SnepK'], targets=['Proofs/SnepChunks.vo', 'Proofs/SnepSched.vo', 'Proofs/Snep.vo', 'Proofs/SnepHo.vo', 'Proofs/SnepApi.vo',
                                      'Gen/SnepK.vo', 'Bridge/Snep.vo'], props='C06')
     mr = ck.model()
     if mr is None:
         ck.finish()
     rng = ck.rng
     quick = ck.tier == 'quick'
+
+    import time as _t
+    t_last = [_t.time()]
+
+    def tick(name):
+        now = _t.time()
+        ck.cov.setdefault('section_wall_s', {})[name] = round(now - t_last[0], 1)
+        t_last[0] = now
+    tick('coq+extraction')
 
     pending = []      # (model line, callback(model output))
 
@@ -943,6 +1073,99 @@ def main():
             pending.append((line, cb))
 
 
+    # ------------------------------------------------------------ (4) histories of one SnepClient object
+    def fmt_segments(segments):
+        return [[seg[0], fmt_op(seg[1]), H(seg[2])] if seg[0] == 'oneshot' else
+                [seg[0], seg[1], [[fmt_op(o), H(r)] for o, r in seg[2]]] for seg in segments]
+
+    def parse_segments(js):
+        def b(h):
+            return b'' if h == '-' else bytes.fromhex(h)
+        return [('oneshot', parse_op(x[1]), b(x[2])) if x[0] == 'oneshot' else
+                ('session', x[1], [(parse_op(o), b(r)) for o, r in x[2]]) for x in js]
+
+    def history(segments, mius, cfg=None):
+        """cfg None: coupled on the World simulator (+ model); else full stack with that configuration"""
+        elogs, eres = history_expect(segments)
+        case = {'history': True, 'segments': fmt_segments(segments), 'mius': mius, 'cfg': cfg}
+        where = 'fullstack-history' if cfg else 'history'
+        obs = None
+        for attempt in range(2 if cfg else 1):
+            try:
+                obs = history_fullstack_run(segments, cfg) if cfg else history_coupled_run(segments, mius)
+            except llcpair.Inconclusive:
+                ck.count('fullstack-inconclusive')
+                obs = None
+                continue
+            if obs['logs'] == elogs and obs['results'] == eres:
+                break
+        if obs is None:
+            return
+        ck.count(where)
+        ck.case((where, tuple(map(str, case['segments'])), str(mius), str(cfg)), True,
+                {'kind': where, 'segments': [x[0] if x[0] == 'oneshot' else 'session@%d x%d' % (x[1], len(x[2])) for x in segments]})
+        if obs['logs'] != elogs:
+            ck.violation(where + '-routing', 'one SnepClient object used for one-shot requests and an explicit connect(service) '
+                         'session: not every message arrived exactly once at the server its session is connected to',
+                         dict(case, expected_logs=[[clip(x) for x in lg] for lg in elogs],
+                              got_logs=[[clip(x) for x in lg] for lg in obs['logs']]))
+        elif obs['results'] != eres:
+            ck.violation(where + '-client-result', 'SnepClient history: a request did not return the expected result',
+                         dict(case, expected=[clip(x) for x in eres], got=[clip(x) for x in obs['results']]))
+        if cfg:
+            return
+        # model: (a) which connection each request uses (api_run), (b) every connection against the two-peer model
+        api = history_api(segments)
+
+        def cb_api(out, obs=obs):
+            if out.split('||')[0] != obs['actions']:
+                mismatch('client-object-connections', dict(case, impl=obs['actions'], model=out))
+            else:
+                nval[0] += 1
+        pending.append(('api 0 ' + ','.join(api), cb_api))
+        w = obs['world']
+        plan = []
+        for seg in segments:
+            plan.append((0, [seg[1]], [seg[2]]) if seg[0] == 'oneshot' else (seg[1], [o for o, _ in seg[2]], [r for _, r in seg[2]]))
+        if len(w.connections) != len(plan) or any(c['service'] != SERVICES[p[0]] for c, p in zip(w.connections, plan)):
+            return
+        for conn, (k, ops, rsps) in zip(w.connections, plan):
+            answers = [('p', 0x81) if o[0] == 'put' else ('gm', r) for o, r in zip(ops, rsps)]
+            cf, cst_ = conn['c'].transcript()
+            sf, sst_ = conn['s'].transcript()
+            impl = {'client': fmt_local(cf, cst_, True), 'server': fmt_local(sf, sst_, False)}
+            nfrag = len(cst_) + len(sst_)
+            cls = {o[1]: default_cls(o[1]) for o in ops}
+            line = 'snep %d %d %d %s %s %s %d' % (mius[k][0], mius[k][1], 0x100000, fmt_table([c for c in cls if cls[c] == 'ok']),
+                                                   fmt_answers(answers), ','.join(fmt_op(o) for o in ops), 4 * nfrag + 8 * len(ops) + 40)
+
+            def cb(out, impl=impl, k=k):
+                m = split_model_trace(out)
+                bad = [x for x in ('client', 'server') if m[x] != impl[x]]
+                if bad:
+                    mismatch('history-connection', dict(case, service=k, differs=bad, impl={x: clip(impl[x]) for x in bad},
+                                                        model={x: clip(m[x]) for x in bad}))
+                else:
+                    nval[0] += 1
+            pending.append((line, cb))
+
+    def gen_history(miu0, miu1):
+        def opr(miu_c, miu_s):
+            if rng.random() < 0.6:
+                return (('put', pick_ndef(miu_c, 6) or b'\xd0\x00\x00'), b'')
+            return (('get', pick_ndef(miu_c, 10) or b'\xd0\x00\x00', 0x100000), pick_ndef(miu_s, 6) or b'\xd0\x00\x00')
+        segs = []
+        for _ in range(rng.choice([1, 1, 2])):
+            o, r = opr(*miu0)
+            segs.append(('oneshot', o, r))
+        segs.append(('session', rng.choice([1, 1, 1, 0]), [opr(*miu1) for _ in range(rng.choice([2, 3]))]))
+        for _ in range(rng.choice([0, 1, 1])):
+            o, r = opr(*miu0)
+            segs.append(('oneshot', o, r))
+        if rng.random() < 0.3:
+            segs.append(('session', 1, [opr(*miu1) for _ in range(2)]))
+        return segs
+
     def aligned_bounds(miu, hdr, nrec=None, kmax=5):
         """record boundaries at k*MIU - hdr + (-1|0|+1) for increasing k (offsets inside the message)"""
         nrec = nrec or rng.choice([2, 2, 3, 4])
@@ -973,7 +1196,10 @@ def main():
 
     if ck.replay:
         c = json.load(open(ck.replay)).get('case') or {}
-        if c.get('fullstack'):
+        if c.get('history'):
+            history(parse_segments(c['segments']), c['mius'], c.get('cfg'))
+            flush()
+        elif c.get('fullstack'):
             fullstack(c['kind'], [parse_op(t) for t in c['ops']], c['cfg'], c['max_acc'], parse_answers(c['answers']),
                       c.get('tag', 'replay'), c['expect'])
             flush()
@@ -1025,8 +1251,35 @@ def main():
         sl = ho_msg(rng, nfrag * 128 - 1, True)
         fullstack('ho', [('ho', rq)], cfgl, 0, [('h', sl)], 'exchange-long',
                   {'log': ['ho:' + H(rq)], 'results': ['octets:' + H(sl)]})
+    # one SnepClient object: one-shot requests, then connect(second service) + requests + close, then one-shot again
+    m_ = [ndef_msg(rng, n) for n in (40, 300, 7, 500, 129, 60)]
+    hist0 = [('oneshot', ('put', m_[0]), b''),
+             ('session', 1, [(('put', m_[1]), b''), (('get', m_[2], 0x100000), m_[3]), (('put', m_[4]), b'')]),
+             ('oneshot', ('get', m_[5], 0x100000), m_[0])]
+    history(hist0, [[128, 128], [140, 130]])
+    history(hist0, [[128, 128], [128, 128]],
+            {'miu_i': 128, 'miu_t': 248, 'agf': False, 'srv_side': 't', 'srv_miu': 128, 'srv_rw': 2, 'cl_miu': 128, 'cl_rw': 1})
     flush()
 
+    tick('corpus')
+    n_hist = 40 if quick else 800
+    n_hist_fs = 15 if quick else 300
+    if os.environ.get('C06_ONLY_FULLSTACK'):
+        n_hist = n_hist_fs = 0
+    for it in range(n_hist):
+        mius = [[pick_miu(), pick_miu()], [pick_miu(), pick_miu()]]
+        history(gen_history(mius[0], mius[1]), mius)
+        if len(pending) > 100:
+            flush()
+    for it in range(n_hist_fs):
+        cfgh = {'miu_i': rng.choice([128, 248, 1024]), 'miu_t': rng.choice([128, 200, 2175]), 'agf': rng.random() < 0.5,
+                'srv_side': rng.choice(['i', 't']), 'srv_miu': rng.choice([128, 248, 1984]), 'srv_rw': rng.choice([1, 2, 15]),
+                'cl_miu': 128, 'cl_rw': 1}
+        mm = min(cfgh['srv_miu'], cfgh['miu_t'] if cfgh['srv_side'] == 't' else cfgh['miu_i'])
+        history(gen_history([mm, 128], [mm, 128]), [[mm, 128], [mm, 128]], cfgh)
+    flush()
+
+    tick('histories')
     n_snep = 400 if quick else 10000
     n_ho = 150 if quick else 4000
     n_sess = 40 if quick else 1000
@@ -1153,6 +1406,7 @@ def main():
             flush()
     flush()
 
+    tick('scripted+coupled')
     # ------------------------------------------------------------ (3) full stack: generated cases
     def fs_ndef(miu, hdr):
         # one transfer in five has 17..40 fragments (sequence numbers and acknowledgements wrap mod 16)
@@ -1230,10 +1484,12 @@ def main():
             flush()
     flush()
 
+    tick('fullstack')
     ck.cov['traces_validated_against_impl'] = nval[0]
     ck.cov['correspondence_mismatches'] = nmis[0]
     ck.finish(level='proof',
-              rule='corpus first (second handover request on a connection; multi-record messages whose record boundaries fall '
+              rule='corpus first (histories of one SnepClient object: one-shot requests, connect(second service) + requests + close, '
+                   'one-shot again, against two servers, coupled and full-stack; second handover request on a connection; multi-record messages whose record boundaries fall '
                    'exactly on fragment boundaries; full-stack transfers of 17-35 fragments per direction with receive window '
                    '1, 2, 15). message sizes 0..6*MIU with k*MIU(-header)-7..+7, multi-record messages (2-4 records) with record '
                    'boundaries at k*MIU(-header)-1/0/+1, full-stack transfers of up to 40 fragments, MIU 128..2175 per side (biased to small MIUs, some '
